@@ -53,6 +53,12 @@ class CriticalPathCalculator:
             else:
                 self.__insert_task(t)
 
+    @staticmethod
+    def __leaves(task: Task) -> List[Task]:
+        if len(task.children) == 0:
+            return [task]
+        return [t for t in task.all_children if len(t.children) == 0]
+
     def __insert_task(self, task: Task):
         if len(task.children) > 0:
             return
@@ -62,10 +68,14 @@ class CriticalPathCalculator:
 
         self.__tasks[task.id] = task
 
+        # Dependencies of parent tasks bind task too. Summary predecessor means all its leaf tasks
         p_ids = []
-        for p in task.predecessors:
-            p_ids.append(p.id)
-            self.__insert_task(p)
+        for holder in [task] + [t for t in task.all_parents]:
+            for p in holder.predecessors:
+                for leaf in self.__leaves(p):
+                    if leaf.id not in p_ids:
+                        p_ids.append(leaf.id)
+                    self.__insert_task(leaf)
 
         estimate = task.estimate if task.estimate is not None else 0
         spent = task.spent if task.spent is not None else 0
@@ -142,11 +152,14 @@ class CriticalPathCalculator:
         for n in self.__nodes:
             self.__backward(n)
 
+        # Units are floats, so task reserve is compared with 0 up to rounding error
+        eps = 1e-9 * max(1.0, end.start_units)
+
         res = []
         for k, v in self.__links.items():
             # print(k, f"{v.start.start_units} - {v.start.end_units}", f"{v.end.start_units} - {v.end.end_units}")
             r = v.end.end_units - v.start.start_units - v.units
-            if r == 0:
+            if abs(r) <= eps:
                 res.append(self.__tasks[k])
 
         if self.__end_date is None:
